@@ -277,3 +277,19 @@ def weighted_from_index(cls, n, values, idx):
         if cls == 'und':
             W[j, i] = v
     return W
+
+
+def rounding_tie_class(L, D=None, H=None):
+    """Input class used in violation keys for the 'log' transform (irrational lengths): minimum-length walks with different
+    edge counts tie over the reals (or a zero-length cycle exists, weight exactly 1), so which of them "wins" a strict
+    floating-point comparison is decided by the order of summation."""
+    L = np.asarray(L, dtype=float)
+    n = len(L)
+    if D is None:
+        D = closure(L)
+    if H is None:
+        H = hop_sets(L, D)
+    offd = ~np.eye(n, dtype=bool)
+    if bool(np.any((H.sum(axis=0) > 1) & offd)):
+        return True
+    return bool(np.any((L == 0) & (D.T == 0) & offd))
